@@ -99,6 +99,18 @@ Proof. exact never_panics. Qed.
 Theorem C27_both_constructors_initialise_all_maps : alive wrap /\ alive wrap_all /\ wrap <> wrap_all.
 Proof. exact ctors_alive. Qed.
 
+(* an error returned by the underlying Close (scripted per call): the wrapper has already released
+   the entry, so the state change and the underlying call are those of a successful close; only
+   the result is the underlying error.  Hence after a failing last close the name is closed: a
+   further Close is an over-close, a further OpenDB opens a fresh store (all earlier theorems apply
+   to the rest of the history). *)
+Theorem C27_failing_underlying_close_releases_the_entry :
+  forall s name,
+  cstep s (CCloseE name) =
+  (let '(s', r, ev) := cstep s (CClose name) in
+   (s', match ev with [] => r | _ => if dead s then r else RCloseErr end, ev)).
+Proof. exact close_error_like_close. Qed.
+
 (* ---- concurrency.  All theorems above are about SEQUENTIAL histories.  For overlapping calls
    only the code as it is is modelled for one case, and it refutes the property there: openDB
    releases the mutex around the underlying OpenDB, so two OpenDB(name) calls on a closed name,
@@ -135,5 +147,6 @@ Print Assumptions C27_drop_reaches_underlying_iff_droppable.
 Print Assumptions C27_not_droppable_again_before_next_open.
 Print Assumptions C27_drops_per_store_at_most_open_calls.
 Print Assumptions C27_never_panics.
+Print Assumptions C27_failing_underlying_close_releases_the_entry.
 Print Assumptions C27_overlapping_first_opens_refuted.
 Print Assumptions C27_both_constructors_initialise_all_maps.
